@@ -85,6 +85,7 @@ def judge(events, outs):
                 continue
             arg_error = f.get("wrong_type") or (f.get("needs_ghi") and not f.get("has_ghi"))
             dq = bool(f.get("data_dq")) and fam != "caltrack"
+            refit = "@refit-same-object" if f.get("reused") else ""
             if arg_error:
                 if cls == "returned":
                     why = "wrong-type" if f.get("wrong_type") else "missing-ghi"
@@ -96,8 +97,8 @@ def judge(events, outs):
                     V.append(_v("C04", f"C04/{fl}/fit/dq/{cls}", ev, {"error": out.get("error")}))
             else:
                 if cls != "returned":
-                    V.append(_v("C04", f"C04/{fl}/fit/qualified/{cls}", ev, {"error": out.get("error"),
-                                                                              "profile": f["profile"]}))
+                    V.append(_v("C04", f"C04/{fl}/fit/qualified/{cls}{refit}", ev, {"error": out.get("error"),
+                                                                                     "profile": f["profile"]}))
             if cls == "returned":
                 if out.get("twin_ok") is False:
                     H.append({"seq": ev["seq"], "error": "deep copy of a freshly fitted model is not faithful",
@@ -126,7 +127,7 @@ def judge(events, outs):
                     key_check("C03", k, out["doc_digest"], ev, sig, out.get("doc"))
             elif not arg_error:
                 k = "fitcls|" + "|".join([fam, f["profile"], out["rid"], out["data_digest"], str(f["ignore"])])
-                key_check("C03", k, cls, ev, lambda first, fl=fl: f"C03/{fl}/fit/outcome-differs")
+                key_check("C03", k, cls, ev, lambda first, fl=fl, refit=refit: f"C03/{fl}/fit/outcome-differs{refit}")
 
         elif kind == "PREDICT":
             f = out["facts"]
